@@ -129,3 +129,24 @@ BRANCH, IN, LITERAL, SUBPATTERN, MAX_REPEAT, AT = (
     sre_c.MAX_REPEAT,
     sre_c.AT,
 )
+
+
+def _items(pattern):
+    t = parse(pattern) if isinstance(pattern, str) else pattern
+    return list(t)
+
+
+def end_anchored(pattern, strict=False):
+    """the pattern's last top-level item is ``$`` / ``\\Z`` (strict: only ``\\Z``, which does not accept a trailing newline)"""
+    it = _items(pattern)
+    if not it:
+        return False
+    op, av = it[-1]
+    if op != sre_c.AT:
+        return False
+    return av == sre_c.AT_END_STRING or (not strict and av == sre_c.AT_END)
+
+
+def start_anchored(pattern):
+    it = _items(pattern)
+    return bool(it) and it[0][0] == sre_c.AT and it[0][1] in (sre_c.AT_BEGINNING, sre_c.AT_BEGINNING_STRING)
